@@ -17,7 +17,7 @@ RULE = ("Histories read^k, rewind, read^j, rewind, [read^i, rewind] on AudioRead
         "(length<=exh_len, block<=4, hop<=block, max_read None/0..length+1, every k and j).  Oracle (FRAME recorder clause): "
         "data before the first rewind raises; after a rewind data == visible[: end of the last block returned] (each sample "
         "once, in order, never beyond max_read); reading again replays exactly the blocks returned before, then None; later "
-        "rewinds keep the same data and replay it again; non-recording readers have neither data nor rewind.  Non-trivial = "
+        "rewinds keep the same data and replay it again; non-recording readers have neither data nor rewind (also over application source classes that carry rewindable / record attributes of their own).  Live streams (stdin, a device-like user source) are also paused and resumed (close, open) between reads of the first pass: everything consumed is the recording.  Non-trivial = "
         ">=1 block read before the first rewind; distinct = distinct (case, history).")
 ASSUMPTIONS = [
     "hop sizes of zero samples are outside the statement and not generated",
